@@ -1032,6 +1032,7 @@ Proof.
       * destruct r2 as [|b0 [|u [|k1 [|k2 [|k3 [|k4 r3]]]]]]; try reflexivity.
         destruct ((bN b0 =? 0x5c) && (bN u =? 0x75)); [|reflexivity].
         destruct (hex4 k1 k2 k3 k4) as [u2|]; [|reflexivity].
+        destruct (utf16_decode_pair u1 u2 =? rune_error); [reflexivity|].
         apply IH; [cbn in Hl; lia|]. intro Hin. apply Hq. cbn [In]. tauto.
       * apply IH; [cbn in Hl; lia|]. intro Hin. apply Hq. cbn [In]. tauto.
     + destruct (bN e =? 0x2f); [apply Hr1|]. destruct (unescape (bN e)); [apply Hr1|reflexivity].
@@ -1100,33 +1101,119 @@ Proof.
     cbn [app]. rewrite plain_step by exact Hp1. now apply IH.
 Qed.
 
-(* 6d. lone surrogates.  A surrogate escape that is NOT followed by another \uXXXX escape is rejected ... *)
-Lemma surrogate_without_escape_in_string : forall h1 h2 h3 h4 u1 r acc,
-  hex4 h1 h2 h3 h4 = Some u1 -> is_surrogate u1 = true ->
-  (forall b u r', r = b :: u :: r' -> (bN b =? 0x5c) && (bN u =? 0x75) = false) ->
-  parse_string (x5c :: x75 :: h1 :: h2 :: h3 :: h4 :: r) acc = None.
+(* 6d. lone surrogates (after the repair 1d72439): a \uXXXX escape with a surrogate value is accepted only as the
+   first half of a (high, low) pair of escapes. *)
+Definition is_high (u : N) : bool := (0xD800 <=? u) && (u <? 0xDC00).
+Definition is_low (u : N) : bool := (0xDC00 <=? u) && (u <? 0xE000).
+
+(* [rest] starts with an escape that completes a pair begun by u1 *)
+Definition pair_ok (u1 : N) (rest : bytes) : bool :=
+  match rest with
+  | b :: u :: k1 :: k2 :: k3 :: k4 :: _ =>
+    if (bN b =? 0x5c) && (bN u =? 0x75) then
+      match hex4 k1 k2 k3 k4 with
+      | Some u2 => negb (utf16_decode_pair u1 u2 =? rune_error)
+      | None => false
+      end
+    else false
+  | _ => false
+  end.
+
+(* [rest] starts with a low-surrogate escape *)
+Definition low_escape_follows (rest : bytes) : bool :=
+  match rest with
+  | b :: u :: k1 :: k2 :: k3 :: k4 :: _ =>
+    (bN b =? 0x5c) && (bN u =? 0x75) &&
+    match hex4 k1 k2 k3 k4 with Some u2 => is_low u2 | None => false end
+  | _ => false
+  end.
+
+Lemma decode_pair_error : forall u1 u2, is_high u1 && is_low u2 = false -> utf16_decode_pair u1 u2 = rune_error.
 Proof.
-  intros h1 h2 h3 h4 u1 r acc Hh Hs Hr. cbn [parse_string]. evb. rewrite Hh, Hs.
-  destruct r as [|b0 [|u [|k1 [|k2 [|k3 [|k4 r3]]]]]]; try reflexivity.
-  now rewrite (Hr b0 u _ eq_refl).
+  intros u1 u2 H. unfold utf16_decode_pair, is_high, is_low in *.
+  rewrite <- !andb_assoc. rewrite <- andb_assoc in H. now rewrite H.
 Qed.
 
-(* ... but when another \uXXXX escape follows, the pair is not checked: utf16.DecodeRune silently yields
-   U+FFFD.  The property text ("lone surrogates ... are rejected") does not hold for the code. *)
-Definition has_lone_surrogate_escape (b : bytes) : Prop :=
-  b = bs "[""\udc00\ud800""]" \/ b = bs "[""\ud800\u0041""]" \/ b = bs "[""\udc00\u0041""]" \/ b = bs "[""\ud800\ud800""]".
+Lemma decode_pair_valid : forall u1 u2, is_high u1 && is_low u2 = true ->
+  (utf16_decode_pair u1 u2 =? rune_error) = false.
+Proof.
+  intros u1 u2 H. unfold utf16_decode_pair, is_high, is_low in *.
+  rewrite <- !andb_assoc. rewrite <- andb_assoc in H. rewrite H. apply N.eqb_neq. unfold rune_error. lia.
+Qed.
 
-Theorem lone_surrogate_rejected_refuted :
-  exists b, has_lone_surrogate_escape b /\ transform b = Some ([x5b; x22; xef; xbf; xbd; x22; x5d]).
-Proof. exists (bs "[""\udc00\ud800""]"). split; [left; reflexivity|vm_compute; reflexivity]. Qed.
+Lemma pair_ok_spec : forall u1 rest, pair_ok u1 rest = is_high u1 && low_escape_follows rest.
+Proof.
+  intros u1 rest. unfold pair_ok, low_escape_follows.
+  destruct rest as [|b [|u [|k1 [|k2 [|k3 [|k4 r]]]]]]; try (now rewrite andb_false_r).
+  destruct ((bN b =? 0x5c) && (bN u =? 0x75)); [|now rewrite andb_false_r]. cbn [andb].
+  destruct (hex4 k1 k2 k3 k4) as [u2|]; [|now rewrite andb_false_r].
+  destruct (is_high u1 && is_low u2) eqn:E.
+  - now rewrite (decode_pair_valid _ _ E).
+  - rewrite (decode_pair_error _ _ E). reflexivity.
+Qed.
 
-Example lone_surrogate_all_witnesses :
-  map transform [bs "[""\udc00\ud800""]"; bs "[""\ud800\u0041""]"; bs "[""\udc00\u0041""]"; bs "[""\ud800\ud800""]"]
-  = repeat (Some [x5b; x22; xef; xbf; xbd; x22; x5d]) 4.
+Lemma surrogate_in_string : forall pre h1 h2 h3 h4 u1 rest acc,
+  forallb plainb pre = true -> hex4 h1 h2 h3 h4 = Some u1 -> is_surrogate u1 = true -> pair_ok u1 rest = false ->
+  parse_string (pre ++ x5c :: x75 :: h1 :: h2 :: h3 :: h4 :: rest) acc = None.
+Proof.
+  induction pre as [|p pre IH]; intros h1 h2 h3 h4 u1 rest acc Hp Hh Hs Hr.
+  - cbn [app parse_string]. evb. rewrite Hh, Hs.
+    destruct rest as [|b0 [|u [|k1 [|k2 [|k3 [|k4 r3]]]]]]; try reflexivity.
+    cbn [pair_ok] in Hr. destruct ((bN b0 =? 0x5c) && (bN u =? 0x75)); [|reflexivity].
+    destruct (hex4 k1 k2 k3 k4) as [u2|]; [|reflexivity].
+    apply negb_false_iff in Hr. now rewrite Hr.
+  - cbn [forallb] in Hp. apply andb_true_iff in Hp. destruct Hp as [Hp1 Hp2].
+    cbn [app]. rewrite plain_step by exact Hp1. eapply IH; eassumption.
+Qed.
+
+(* general form: the first surrogate escape of a string literal (everything before it is plain: no escapes, quotes
+   or control bytes) makes the document invalid unless it is a high surrogate immediately followed by a
+   low-surrogate escape *)
+Theorem lone_surrogate_rejected : forall pre h1 h2 h3 h4 u1 rest,
+  forallb plainb pre = true -> hex4 h1 h2 h3 h4 = Some u1 -> is_surrogate u1 = true ->
+  is_high u1 && low_escape_follows rest = false ->
+  transform (x5b :: x22 :: pre ++ x5c :: x75 :: h1 :: h2 :: h3 :: h4 :: rest) = None.
+Proof.
+  intros pre h1 h2 h3 h4 u1 rest Hp Hh Hs Hr. apply string_failure_rejected.
+  eapply surrogate_in_string; try eassumption. now rewrite pair_ok_spec.
+Qed.
+
+(* a high surrogate escape must be followed by a low-surrogate escape *)
+Corollary lone_high_surrogate_rejected : forall pre h1 h2 h3 h4 u1 rest,
+  forallb plainb pre = true -> hex4 h1 h2 h3 h4 = Some u1 -> is_high u1 = true ->
+  low_escape_follows rest = false ->
+  transform (x5b :: x22 :: pre ++ x5c :: x75 :: h1 :: h2 :: h3 :: h4 :: rest) = None.
+Proof.
+  intros pre h1 h2 h3 h4 u1 rest Hp Hh Hs Hr. eapply lone_surrogate_rejected; try eassumption.
+  - unfold is_high in Hs. unfold is_surrogate. apply andb_true_iff in Hs. destruct Hs as [H1 H2].
+    rewrite H1. cbn [andb]. apply N.ltb_lt in H2. apply N.ltb_lt. lia.
+  - now rewrite Hr, andb_false_r.
+Qed.
+
+(* a low surrogate escape that does not complete a pair is rejected whatever follows *)
+Corollary lone_low_surrogate_rejected : forall pre h1 h2 h3 h4 u1 rest,
+  forallb plainb pre = true -> hex4 h1 h2 h3 h4 = Some u1 -> is_low u1 = true ->
+  transform (x5b :: x22 :: pre ++ x5c :: x75 :: h1 :: h2 :: h3 :: h4 :: rest) = None.
+Proof.
+  intros pre h1 h2 h3 h4 u1 rest Hp Hh Hs. eapply lone_surrogate_rejected; try eassumption.
+  - unfold is_low in Hs. unfold is_surrogate. apply andb_true_iff in Hs. destruct Hs as [H1 H2].
+    rewrite H2, andb_true_r. apply N.leb_le in H1. apply N.leb_le. lia.
+  - assert (E : is_high u1 = false); [|now rewrite E].
+    unfold is_low in Hs. unfold is_high. apply andb_true_iff in Hs. destruct Hs as [H1 _].
+    apply N.leb_le in H1. apply andb_false_iff. right. apply N.ltb_ge. exact H1.
+Qed.
+
+Example lone_surrogates_rejected :
+  map transform [bs "[""\udc00\ud800""]"; bs "[""\ud800A""]"; bs "[""\ud800\ud800""]"; bs "{""\udfff\u0000"":1}";
+                 bs "[""a\ud800\udbffb""]"; bs "[""\ud800\u0041""]"; bs "[""\udc00\udc00""]"; bs "[""\ud800""]";
+                 bs "[""\udc00""]"; bs "[""\ud800x""]"; bs "[""\ud800\n""]"; bs "[""\ud800\ue000""]"]
+  = repeat None 12.
 Proof. vm_compute. reflexivity. Qed.
 
-Example lone_surrogate_plain_rejected :
-  map transform [bs "[""\ud800""]"; bs "[""\udc00""]"; bs "[""\ud800x""]"; bs "[""\ud800\n""]"] = repeat None 4.
+Example surrogate_pairs_accepted :
+  map transform [bs "[""\ud83d\ude00""]"; bs "[""\uD800\uDC00""]"; bs "[""\udbff\udfff""]"]
+  = [Some ([x5b; x22; xf0; x9f; x98; x80; x22; x5d]); Some ([x5b; x22; xf0; x90; x80; x80; x22; x5d]);
+     Some ([x5b; x22; xf4; x8f; xbf; xbf; x22; x5d])].
 Proof. vm_compute. reflexivity. Qed.
 
 (* The duplicate test is on sort keys, so distinct names made of invalid UTF-8 collide (outside the property's
@@ -1299,6 +1386,7 @@ Proof.
       * destruct r2 as [|b0 [|u [|k1 [|k2 [|k3 [|k4 r3]]]]]]; try discriminate.
         destruct ((bN b0 =? 0x5c) && (bN u =? 0x75)); [|discriminate].
         destruct (hex4 k1 k2 k3 k4) as [u2|]; [|discriminate].
+        destruct (utf16_decode_pair u1 u2 =? rune_error); [discriminate|].
         apply IH in H; cbn [length] in *; lia.
       * apply IH in H; cbn [length] in *; lia.
     + destruct (bN e =? 0x2f); [apply IH in H; cbn [length] in *; lia|].
